@@ -82,9 +82,13 @@ type Step struct {
 }
 
 type Behaviour struct {
-	N     int    `json:"n"`
-	Calls int    `json:"calls"`
-	Steps []Step `json:"steps"`
+	N     int `json:"n"`
+	Calls int `json:"calls"`
+	// Overlap: status checks may run while a call is in flight.  Then a healthy endpoint can sit in the probe
+	// queue (see Failover.tla, ProbesTargetBlocked) and activeEp can hold it twice; the selectors stay the
+	// reference for "in rotation" and activeEp is compared as an observation only.
+	Overlap bool   `json:"overlap"`
+	Steps   []Step `json:"steps"`
 }
 
 // thresholds of tars/setting.go = saturation values of the model's ages
@@ -144,6 +148,7 @@ type run struct {
 	stats    map[string]int
 	callSeq  int
 	idx      int
+	obs      []string // observations of the current comparison; counted only if the comparison succeeds
 }
 
 func replayWithRetries(idx int, b *Behaviour, timeoutMode bool, tms, attempts int) *Result {
@@ -510,6 +515,17 @@ func ageOK(model, cap int, real int64) bool {
 
 // compare returns the first differing field ("" if none), with expected and observed value.
 func (r *run) compare(m *State, full bool) (field, exp, got string) {
+	r.obs = r.obs[:0]
+	field, exp, got = r.compare1(m, full)
+	if field == "" {
+		for _, o := range r.obs {
+			r.stats[o]++
+		}
+	}
+	return
+}
+
+func (r *run) compare1(m *State, full bool) (field, exp, got string) {
 	health := tars.VerifFailoverHealthOf(r.sp)
 	now := time.Now().Unix()
 	created := []int{}
@@ -562,15 +578,17 @@ func (r *run) compare(m *State, full bool) (field, exp, got string) {
 				if a.relevant {
 					return a.name, fmt.Sprintf("ep%d age(%s)=%d (saturating at %d)", e, a.name, a.model, a.cap), fmt.Sprintf("ep%d age=%d", e, a.real)
 				}
-				r.stats["obs_unread_age_differs"]++
+				r.obs = append(r.obs, "obs_unread_age_differs")
 			}
 		}
 	}
 	act, dup := r.idxSet(tars.VerifFailoverActive(r.sp))
 	if dup {
-		r.stats["obs_duplicate_in_activeEp"]++
+		r.obs = append(r.obs, "obs_duplicate_in_activeEp")
 	}
-	if !eqInts(act, m.Ac) {
+	if !eqInts(act, m.Ac) && r.b.Overlap {
+		r.obs = append(r.obs, "obs_activeEp_differs_from_selectors")
+	} else if !eqInts(act, m.Ac) {
 		return "active", fmt.Sprintf("in rotation %v", m.Ac), fmt.Sprintf("activeEp %v", act)
 	}
 	q, l := tars.VerifFailoverProbeQueue(r.sp)
